@@ -22,6 +22,22 @@ prop("C20", True, "seqmc", "exploration", "bounded-exhaustive enumeration of the
      "Every int32 (thorough) / every int in [-70000, 2^24] (quick) plus dense windows around every power of two up to 2^62 for the four math functions, every size 1..MaxInt32 for the size-class function, and the full field ranges of the connection identifier.",
      TRUST + "64-bit arguments away from powers of two are covered by windows only.", "DESIGN.md §3, §5/C20")
 
+prop("C12", True, "seqmc", MC, "explicit-state model checking (BFS with state dedup) of the real pools with an address ledger as oracle",
+     "All Get/Put/PutForeign/GC sequences up to a depth on a fresh byteslice.Pool (sizes around class boundaries, re-sliced and foreign slices of odd capacity, garbage collections) with an address ledger that detects overlap with outstanding slices and hand-outs reaching beyond a returned slice's capacity; same for the ring-buffer pool (empty, not shared) incl. a scripted run across the calibration threshold.",
+     TRUST + "Single-threaded per process (sync.Pool is per-P); classes >= 2^27 not allocated; data races are decided under C05.", "DESIGN.md §3, §5/C12")
+prop("C14", True, "seqmc", MC, "explicit-state model checking (BFS to closure) of both registry implementations against a reference map",
+     "Closure of all reachable registry layouts for small descriptor alphabets on the map registry, the gc_opt matrix with the real geometry, and the gc_opt matrix with scaled geometries 4x2 and 4x4 (row-boundary crossings enumerable), plus scripted 65538-connection populations on the real geometry; lookups of every descriptor, count, visit-exactly-once, shutdown pattern and the stored indexes of every live connection checked after each transition.",
+     TRUST + "Scaled geometry changes only the two geometry constants of internal/gfd (asserted by the rewriter).", "DESIGN.md §3, §5/C14")
+prop("C15", True, "seqmc", MC, "exhaustive enumeration of policy inputs and explicit-state BFS of the least-connections transition system on the real load balancers",
+     "Round-robin for every N in 1..256, least-connections as BFS over accept/close sequences plus every count vector in {0..3}^N (N<=5), source-addr-hash for every N in 1..256 over an address alphabet, all on the real loadBalancer implementations with real connection counters.",
+     TRUST + "Policy part uses fake loops; the live clause (callbacks run on the assigned loop) is decided by the scheduler-based engine unit when present in the evidence.", "DESIGN.md §5/C15")
+prop("C16", True, "seqmc", "exploration", "bounded-exhaustive enumeration of strings, grammar derivations and integer options",
+     "Every string up to length 5 (6 thorough) over a 20-symbol alphabet behind 5 prefixes, every derivation of an address grammar, every capacity/chunk value in [-2,2^17] and around every power of two up to 2^62 through createListeners and NewClient, every (Multicore, NumEventLoop) pair.",
+     TRUST + "Strings outside the alphabet/length bound are not covered; error identity is only checked where the statement pins it down.", "DESIGN.md §5/C16")
+prop("C17", True, "seqmc", "exploration", "bounded-exhaustive enumeration of address conversions",
+     "net.Addr -> sockaddr -> net.Addr for {tcp,udp,ip} x IP alphabet x all 65536 ports x zones, unix names x networks, invalid IP lengths, zone index round trip for every index of a range.",
+     TRUST + "Zones compared by interface index on this host; the live clause (RemoteAddr/LocalAddr at every callback under churn) is decided by the scheduler-based engine unit when present in the evidence.", "DESIGN.md §5/C17")
+
 REASON_WIP = "check under construction in this build phase (machinery not committed yet)"
 for i in range(1, 21):
     id = "C%02d" % i
